@@ -71,11 +71,16 @@ def case_get_closest(draw):
             vals.append(float(np.nextafter(g[i], draw(st.sampled_from([-np.inf, np.inf])))))
     # ... and of another memory layout (Fortran order, a transposed / strided / reversed view): element-wise all the same
     return {"kind": kind, "grid": g, "values": vals, "shape": draw(st.sampled_from(["1d", "1d", "2d", "3d"])),
-            "layout": draw(st.sampled_from(["C", "C", "F", "T", "strided", "reversed"]))}
+            "layout": draw(st.sampled_from(["C", "C", "F", "T", "strided", "reversed"])),
+            # the grid itself need not be float64: when its elements are whole numbers it may be an integer array
+            "grid_dtype": draw(st.sampled_from(["float64", "float64", "int64", "int32", "uint16", "float32"]))}
 
 
 def _oracle_rows(sub, ctx, case, grid, values, out):
-    """out[k] must be a grid element at minimal |v - g|."""
+    """out[k] must be a grid element at minimal |v - g| (distances evaluated in double precision whatever the grid's dtype)."""
+    grid = np.asarray(grid, dtype=float)
+    values = np.asarray(values, dtype=float)
+    out = np.asarray(out, dtype=float)
     for k, v in enumerate(values):
         r = out[k]
         if not np.any(grid == r):
@@ -111,6 +116,15 @@ def check_get_closest(ctx: Ctx, case):
     if not (np.all(np.isfinite(grid)) and np.all(np.isfinite(values))):
         ctx.exclude("non-finite grid or value (outside the property's domain)")
         return
+    gd = case.get("grid_dtype", "float64")
+    if gd != "float64":
+        # only when every element is exactly representable in that type (and stays sorted): the same grid, another dtype
+        with np.errstate(all="ignore"):
+            cast = grid.astype(gd)
+        if np.array_equal(cast.astype(float), grid):
+            grid = cast
+        else:
+            gd = "float64"
     shp = case.get("shape", "1d")
     if shp != "1d" and len(values) >= 2:   # the same values as an array of another shape: snapping is element-wise
         pad = (-len(values)) % (2 if shp == "2d" else 4)
@@ -126,7 +140,7 @@ def check_get_closest(ctx: Ctx, case):
     out, values, v0 = out.reshape(-1), values.reshape(-1), v0.reshape(-1)
     special = any(v < grid[0] or v > grid[-1] or v == grid[0] or v == grid[-1] for v in values) or any(
         (v == (grid[i] + grid[i + 1]) / 2) for v in values for i in range(len(grid) - 1) if len(grid) < 40)
-    ctx.count(sub, case, bool(special), [case.get("kind", "?"), f"layout={case.get('layout', 'C')}-{shp}"])
+    ctx.count(sub, case, bool(special), [case.get("kind", "?"), f"layout={case.get('layout', 'C')}-{shp}", f"grid-{gd}"])
     if out.shape != values.shape:
         ctx.fail("C17/shape", f"shape {out.shape} != {values.shape}", sub, case)
         return
